@@ -68,7 +68,7 @@ def builtin_forms(chk, P):
                 v = I.num(I.call(inst, args, {}))
                 d1 = I.num(I.call(I.getattr(inst, "deriv"), args, {}))
                 d2 = I.num(I.call(I.getattr(inst, "deriv2"), args, {}))
-                dcheck(chk, "C07.O1p", "polynomial order %d: deriv = d/dr value" % order, v, d1, inst.ci.lookup("deriv").site(),
+                dcheck(chk, "C07.O1p", "polynomial order %d: deriv = d/dr value" % order, v, d1, inst.ci.site_of("deriv"),
                        "C07.O1p|polynomial|deriv|%d" % order)
                 dcheck(chk, "C07.O1p", "polynomial order %d: deriv2 = d/dr deriv" % order, d1, d2, inst.ci.lookup("deriv2").site(),
                        "C07.O1p|polynomial|deriv2|%d" % order)
@@ -263,14 +263,14 @@ def splines(chk, P, rule="C07.O6"):
     r = Num(ep.sym("r"))
     val = I.call(pot, [r], {})
     lv = phi_leaves(val)
-    site = cls.lookup("__call__").site()
+    site = cls.site_of("__call__")
     chk.ob(rule, "Custom_SplinePotential.__call__ distinguishes three regions", len(lv) == 3, site=site, found=val,
            expect="start / end / spline by position of r", key=rule + "|custom|regions")
     for meth, order in (("deriv", 1), ("deriv2", 2)):
         dv = I.call(I.getattr(pot, meth), [r], {})
         ld = phi_leaves(dv)
         same = [c for c, _ in lv] == [c for c, _ in ld]
-        chk.ob(rule, "%s classifies r into the same regions as __call__" % meth, same, site=cls.lookup("__call__").site(),
+        chk.ob(rule, "%s classifies r into the same regions as __call__" % meth, same, site=cls.site_of("__call__"),
                found=[c for c, _ in ld], expect=[c for c, _ in lv], key=rule + "|custom|%s-regions" % meth)
         if same:
             for (c, v0), (_, v1) in zip(lv, ld):
@@ -279,7 +279,7 @@ def splines(chk, P, rule="C07.O6"):
                     want = ep.D(want, "r")
                 ok, why = ep.equal(I.num(v1), want)
                 chk.ob(rule, "%s in region %s is the derivative of that region's function" % (meth, _region(c)), ok,
-                       site=cls.lookup("__call__").site(), found=why or v1, expect=want,
+                       site=cls.site_of("__call__"), found=why or v1, expect=want,
                        key=rule + "|custom|%s|%s" % (meth, _region(c)))
     # Exp_Spline / Buck4_Spline built through their constructors (linear solve captured: coefficients are symbols)
     from .c10 import numpy_model, SolveCapture, _point_syms
@@ -346,7 +346,7 @@ def wrappers(chk, P):
         v = I.num(I.call(f, [r], {}))
         d1 = I.num(I.call(I.getattr(f, "deriv"), [r], {}))
         d2 = I.num(I.call(I.getattr(f, "deriv2"), [r], {}))
-        site = P.cls(F.PFORMS, "_FunctionFactory").lookup("__call__").site()
+        site = P.cls(F.PFORMS, "_FunctionFactory").site_of("__call__")
         dcheck(chk, "C07.O7", "potentialforms.%s(...).deriv is the derivative of the bound function" % name, v, d1, site,
                "C07.O7|factory|%s|deriv" % name)
         dcheck(chk, "C07.O7", "potentialforms.%s(...).deriv2 is the derivative of its deriv" % name, d1, d2, site,
@@ -362,7 +362,7 @@ def tableform_derivs(chk, P, rule):
     inst = J.instantiate(tf, [W.param("x"), W.param("y")], {}, None)
     # through the public surface: the documented .interpolant property and the three evaluation methods
     interp = J.getattr(inst, "interpolant")
-    site = tf.lookup("__init__").site()
+    site = tf.site_of("__init__")
     x = Num(ep.sym("x"))
     got = {}
     for meth in ("__call__", "deriv", "deriv2"):
